@@ -76,6 +76,7 @@ def plan(tier, seed):
     for part in range(8):
         ch.append({"key": f"B/constructors/{part}", "kind": "constructors", "part": part, "cost": 4000})
     ch.append({"key": "B/history-independence", "kind": "history", "cost": 800})
+    ch.append({"key": "B/decoys", "kind": "constructor_decoys", "cost": 900})
     return ch
 
 
@@ -91,10 +92,17 @@ def lib_candidates(payload: bytes, keys, all_keys: bool, S: int):
     try:
         xk = None if keys is None else [bytes([k]) for k in keys]
         out = []
+        held = []
         for blk, info in beacon.iter_beacon_config_blocks(io.BytesIO(payload), xor_keys=xk, all_xor_keys=all_keys):
             out.append((bytes(blk), info["xorkey"][0], bool(info["xorencoded"])))
+            held.append((blk, info))
             if len(out) > 600:
                 break
+        # a consumer that collects the candidates first (list(...)) and reads them afterwards sees the same values
+        later = [(bytes(blk), info["xorkey"][0], bool(info["xorencoded"])) for blk, info in held]
+        if later != out:
+            i = next(i for i, (a, b) in enumerate(zip(out, later)) if a != b)
+            return f"HELD candidate {i} read after the generator advanced: key/xorencoded {later[i][1:]} instead of {out[i][1:]}"
         return out
     except Exception as e:  # noqa
         return f"EXC {type(e).__name__}: {e}"
@@ -106,7 +114,7 @@ def judge_a(views, keys, all_keys, got):
     """-> None or (signature, expected, observed)"""
     eff = list(RS.DEFAULT_KEYS) if keys is None else list(keys)
     if isinstance(got, str):
-        return "C01/search/exception", "candidate sequence", got
+        return ("C01/search/held-candidate-changed" if got.startswith("HELD") else "C01/search/exception"), "candidate sequence", got
     if not all_keys:
         exp = RS.expected(views, eff)
         if not first_and_subsequence(exp, got):
@@ -453,6 +461,29 @@ def chunk_constructors(chunk, acc):
     acc.sample({"constructors": ["from_bytes", "from_file", "from_path"], "containers": ["raw0", "raw", "rawcut", "pe", "xor", "none"], "checked": ["config_block", "xorkey", "xorencoded", "settings_tuple", "ValueError when nothing"]})
 
 
+def chunk_constructor_decoys(chunk, acc):
+    """Two blocks under different keys in both file orders, through the public constructors with the caller's key
+    list in every order: the first key of the caller's list that has a block wins, not the numerically smallest."""
+    B = blocks(acc.seed)
+    b1, b2 = B["minimal"], B["two"]
+    keysets = ((0x69, 0x2E), (0x00, 0x69), (0x69, 0xAF), (0xAF, 0xCC), (0xCC, 0x01))
+    for k1, k2 in keysets:
+        for order in ("ab", "ba"):
+            first, second = (RC.obfuscate(b1, k1), RC.obfuscate(b2, k2)) if order == "ab" else (RC.obfuscate(b2, k2), RC.obfuscate(b1, k1))
+            payload = b"\x90" * 4 + first + bytes(lcg(3, acc.seed)) + second + b"\x90" * 7
+            views = [(payload, False)]
+            acc.states += 1
+            for keys, ak in ((None, False), ([k1, k2], False), ([k2, k1], False), ([0xEE, k2, k1], False), ([k1], False), ([k2], False), (None, True), ([k2, k1], True), ([0x69, 0x2E, 0x00], False), ([0x00, 0x2E, 0x69], False)):
+                for which in ("bytes", "file", "path"):
+                    bc = run_constructor(which, payload, keys, ak)
+                    acc.transitions += 1
+                    bad = judge_b(views, keys, ak, bc)
+                    acc.case(("Bdecoy", k1, k2, order, tuple(keys or ()), ak, which), outcome=(bc if isinstance(bc, str) else (bc.xorkey, len(bc.settings_tuple))))
+                    if bad:
+                        acc.fail(bad[0] + "/decoy", {"kind": "Bdecoy", "seed": acc.seed}, bad[1], bad[2])
+    acc.sample({"payload": "two blocks under (k1,k2), both file orders", "key_lists": ["default", "[k1,k2]", "[k2,k1]", "[ee,k2,k1]", "[k1]", "[k2]", "all", "[69,2e,00]", "[00,2e,69]"], "constructors": ["from_bytes", "from_file", "from_path"]})
+
+
 def chunk_history(chunk, acc):
     """Extraction is a function of the payload: the same payload gives the same answer whatever was extracted before
     it in the same process (the priority *between* leftover keys is implementation-defined, but it is a fixed one)."""
@@ -511,6 +542,8 @@ def replay(case):
         chunk_history({}, a)
     elif case["kind"] in ("Acont", "Arawdecoy"):
         chunk_containers({"arch": case["arch"]}, a)
+    elif case["kind"] == "Bdecoy":
+        chunk_constructor_decoys({}, a)
     elif case["kind"] == "Axorbuf":
         chunk_xorbuffers({"arch": case["arch"], "block": case["block"], "xk": case["key"]}, a)
     else:
